@@ -20,7 +20,7 @@ ASSUMPTIONS = ['a blocked constructor for an unknown context is judged by C20, h
 SHRINK = 'greedy'
 SHRINK_RUNS = 10
 TIME_BUDGET = {'quick': 170, 'thorough': 1700}
-REQUIRED = {'quick': {'op:create_duplicate': 30, 'op:delete': 60, 'op:start_worker': 80, 'op:start_worker_unknown': 20, 'op:delete_unknown': 20, 'recreate_after_delete': 10, 'default_call_after_override': 15, '>=2_live_workers_in_one_context': 60,
+REQUIRED = {'quick': {'op:create_duplicate': 30, 'op:delete': 60, 'op:start_worker': 80, 'op:start_worker_unknown': 20, 'op:delete_unknown': 20, 'recreate_after_delete': 10, 'default_call_after_override': 15, 'call_with_fewer_positionals_than_context_defaults': 30, '>=2_live_workers_in_one_context': 60,
                       'worker_result_checked': 60},
             'thorough': {'op:create_duplicate': 300, 'op:delete': 300, 'op:start_worker': 800}}
 TARGETS = {'t1': vtargets.ctx_t1, 't2': vtargets.ctx_t2}
@@ -37,8 +37,8 @@ def shards(tier):
 def strategy(tier):
     i = st.sampled_from([1, 1, 1, 2, 0, 0, 3])   # 0: a falsy but perfectly valid context id
     op = st.one_of(
-        st.tuples(st.just('create'), i, st.sampled_from(['t1', 't2']), st.sampled_from([None, 5, 9])),
-        st.tuples(st.just('create'), i, st.sampled_from(['t1', 't2']), st.sampled_from([None, 5, 9])),
+        st.tuples(st.just('create'), i, st.sampled_from(['t1', 't2']), st.sampled_from([None, 5, 9, 'P8'])),
+        st.tuples(st.just('create'), i, st.sampled_from(['t1', 't2']), st.sampled_from([None, 5, 9, 'P8'])),
         st.tuples(st.just('create_duplicate'), i, st.sampled_from(['t1', 't2'])),
         st.tuples(st.just('delete'), i), st.tuples(st.just('delete_unknown'), i),
         st.tuples(st.just('start_worker'), i), st.tuples(st.just('start_worker'), i), st.tuples(st.just('start_worker'), i, st.sampled_from([2, 3])),
@@ -46,7 +46,7 @@ def strategy(tier):
         st.tuples(st.just('enqueue'), st.integers(0, 5), st.integers(0, 99)), st.tuples(st.just('enqueue'), st.integers(0, 5), st.integers(0, 99), st.sampled_from([4, 7])),
         st.tuples(st.just('enqueue'), st.integers(0, 5), st.integers(0, 99), st.sampled_from([None, 4, 7])),    # per-call keyword override of the context's default
         st.tuples(st.just('enqueue'), st.integers(0, 5), st.integers(0, 99)), st.tuples(st.just('wait'), st.integers(0, 5)))
-    first = st.tuples(st.just('create'), st.just(1), st.sampled_from(['t1', 't2']), st.sampled_from([None, 5]))
+    first = st.tuples(st.just('create'), st.just(1), st.sampled_from(['t1', 't2']), st.sampled_from([None, 5, 'P8']))
     return st.fixed_dictionaries({'ops': st.builds(lambda f, rest: [list(f)] + [list(r) for r in rest], first, st.lists(op, min_size=1, max_size=9))})
 
 
@@ -85,9 +85,13 @@ def run_case(case, ctx):
                     k = op[3] if what == 'create' else None
                     if what == 'create_duplicate' and i not in model:
                         continue
-                    kwargs = {'k': k} if k is not None else None
+                    kwargs = {'k': k} if k is not None and k != 'P8' else None
+                    # 'P8': the context's defaults are positional ([x default, k default]); a call that passes one positional replaces only the first
+                    cargs = [100, 8] if k == 'P8' else None
+                    if k == 'P8':
+                        out.label('context_with_positional_defaults')
                     try:
-                        rc = bounded(RemoteContext, 25, i, host=srv.addr, target=TARGETS[t], kwargs=kwargs)
+                        rc = bounded(RemoteContext, 25, i, host=srv.addr, target=TARGETS[t], args=cargs, kwargs=kwargs)
                         created = True
                     except ValueError:
                         created = False
@@ -166,7 +170,11 @@ def run_case(case, ctx):
                     rec = live[op[1] % len(live)]
                     x = op[2]
                     over = op[3] if len(op) > 3 else None
-                    if over is not None:
+                    if rec['k'] == 'P8':
+                        v = bounded(rec['w'].call, 25, x)
+                        exp = TARGETS[rec['t']](x, 8)
+                        out.label('call_with_fewer_positionals_than_context_defaults')
+                    elif over is not None:
                         v = bounded(rec['w'].call, 25, x, k=over)
                         exp = TARGETS[rec['t']](x, k=over)
                         rec['overridden'] = True
